@@ -60,12 +60,47 @@ for sid, pid, needs, res in seed_rows:
     others = [k for k, v in res.items() if k != pid and v.get("outcome") in ("failing-input", "tie-only")]
     out.append("| %s | %s | %s | %s |" % (sid, own.get("outcome", "not evaluated") + (" (" + own.get("line", "")[:60] + ")" if own.get("line") else ""),
                                        ", ".join(others) or "-", needs.replace("|", "/")))
+# ---- inventory: what each property's theorems are built on (from the import closure of Props/Cxx.lean)
+IMP = re.compile(r"^import\s+(FordModel[\w.]*)", re.M)
+
+
+def closure(mod, seen):
+    f = V / "lean" / (mod.replace(".", "/") + ".lean")
+    if mod in seen or not f.exists():
+        return
+    seen.add(mod)
+    for m in IMP.findall(f.read_text()):
+        closure(m, seen)
+
+
+def loc(mods):
+    return sum(len((V / "lean" / (m.replace(".", "/") + ".lean")).read_text().splitlines()) for m in mods)
+
+
+inv = ["| id | models (import closure of Props/Cxx.lean) | lemma files | regenerated tables | lines model / lemmas / props | harness + translator |",
+       "|---|---|---|---|---|---|"]
+for p in props:
+    pid = p["id"]
+    seen = set()
+    closure(f"FordModel.Props.{pid}", seen)
+    mods = sorted(seen)
+    lem = [m for m in mods if ".Lemmas." in m]
+    gen = [m for m in mods if ".Generated." in m]
+    prp = [m for m in mods if ".Props." in m]
+    mdl = [m for m in mods if m not in lem + gen + prp and not m.startswith("FordModel.Basic") and m != "FordModel.Proto"]
+    hs = sorted(f.name for f in (V / "harness").glob(f"{pid.lower()}*.py")) + sorted("translate/" + f.name for f in (V / "translate").glob(f"{pid.lower()}*.py"))
+    short = lambda ms: ", ".join(m.split(".")[-1] for m in ms) or "-"  # noqa
+    inv.append("| %s | %s | %s | %s | %d / %d / %d | %s |" % (pid, short(mdl), short(lem), short(gen), loc(mdl), loc(lem), loc(prp), ", ".join(hs)))
+invblock = "\n".join(inv)
 block = "\n".join(out)
 d = V / "DESIGN.md"
 text = d.read_text()
 a, b = "<!-- BEGIN GENERATED STATUS -->", "<!-- END GENERATED STATUS -->"
 if a in text:
     text = text[: text.index(a) + len(a)] + "\n" + block + "\n" + text[text.index(b):]
+    ia, ib = "<!-- BEGIN GENERATED INVENTORY -->", "<!-- END GENERATED INVENTORY -->"
+    if ia in text:
+        text = text[: text.index(ia) + len(ia)] + "\n" + invblock + "\n" + text[text.index(ib):]
     d.write_text(text)
     print("DESIGN.md status block rewritten")
 else:
